@@ -539,6 +539,15 @@ def _crash_excerpt(out):
     return None
 
 
+def _crash_site(exc):
+    """Short name of the first function of the crashing goroutine that is not part of the Go runtime: tells call sites apart."""
+    for l in (exc or "").splitlines():
+        m = re.match(r"^([A-Za-z0-9_./\-]+\.[A-Za-z0-9_(*).]+)\(", l)
+        if m and not m.group(1).startswith("runtime.") and not m.group(1).startswith("panic"):
+            return m.group(1).rsplit("/", 1)[-1]
+    return "unknown"
+
+
 def _panic_in_code_under_test(exc):
     """True if the first source line of the crash excerpt (the frame that panicked) lies in the repository, not in a harness file."""
     for l in exc.splitlines():
@@ -586,7 +595,7 @@ def run_harness(chk, label, pkg, files, run, env=None, timeout=900, race=False, 
                 found = True
             elif not any(r.get("k") == "done" for r in recs2) and exc2:
                 case = [r for r in recs2 if r.get("k") == "case"]
-                chk.violation(crash_key, "process crashed: " + exc2.splitlines()[0],
+                chk.violation(crash_key + "/" + _crash_site(exc2), "process crashed: " + exc2.splitlines()[0],
                               {"harness": label, "case_index": idx, "case": case[:1], "input": env.get("VERIF_IN"), "crash": exc2})
                 skip.append(idx)
                 found = True
